@@ -19,6 +19,7 @@ def plan(tier, seed):
     pool_n = 3
     chunks += [{'kind': 'pairs', 'n': pool_n, 'mod': 16, 'rem': i} for i in range(16)]
     chunks += [{'kind': 'wide', 'L': L} for L in (5, 6, 7, 9)]
+    chunks += [{'kind': 'triples'}]
     return {
         'chunks': chunks + [{'kind': 'clipipe-grammar'}],
         'rule': 'treebanks of one tree (every hierarchy over n tokens, <= u unary, x every labelling of the '
@@ -68,6 +69,9 @@ def conservation(G, lex_tags, roots, nodes_per_label):
     return probs
 
 
+_VERB = [0]
+
+
 def check_bank(mtjs, cfg):
     mts = [model.MT.from_json(j) for j in mtjs]
     # in memory a token may consist of several words (TIGER-XML word attributes with a space): every second token
@@ -95,6 +99,15 @@ def check_bank(mtjs, cfg):
                 tags[tk['pos']] += 1
         repeated = any(sum(v.values()) > 1 for lins in g.values() for v in lins.values())
         G = g if cfg is None else run_binarize(g, cfg)
+        _VERB[0] += 1
+        if cfg is not None and _VERB[0] % 3 == 0:
+            # verbose mode only prints statistics: the grammar it returns must be the same (thirteenth wave)
+            Gv = run_binarize(g, dict(cfg, verb=True))
+            if Gv != G:
+                out.append({'kind': 'verbose-changes-result', 'where': 'grammar.binarize', 'case': case,
+                            'detail': 'binarize(..., verb=True) returns %d productions, without verb %d [treebank %s, mode %r]'
+                                      % (len(Gv), len(G), [model.mt_str(m.root) for m in mts], cfg),
+                            'what': 'verbose mode changes the binarized grammar'})
     except Exception as e:
         out.append({'kind': 'exception', 'where': 'grammar', 'case': case,
                     'detail': '%s: %s' % (type(e).__name__, e), 'what': 'extract/binarize raised'})
@@ -309,6 +322,18 @@ def run_chunk(chunk):
                     mt = model.MT(1, model.mk_tokens(L, words=['w'] * L, pos=pos), root)
                     do([mt], files=None not in pos and '' not in pos)
             res.sample({'treebank': [model.mt_str(mt.root, mt.toks)], 'modes': len(cfgs)})
+        elif chunk['kind'] == 'triples':
+            # three trees, every order: the same rule NP -> ART NN below a VP of fan-out 2, below a PP and below a VP of
+            # fan-out 1 - contexts that coincide once fan-outs are stripped need not be seen next to each other
+            T = lambda: model.mk_tokens(4, words=['w'] * 4, pos=['ART', 'NN', 'x', 'y'])  # noqa: E731
+            NP = ('NP', '--', (1, 2))
+            three = [model.MT(1, T(), ('VROOT', '--', (('S', '--', (('VP', '--', (NP, 4)), 3)),))),
+                     model.MT(2, T(), ('VROOT', '--', (('S', '--', (('PP', '--', (NP, 3)), 4)),))),
+                     model.MT(3, T(), ('VROOT', '--', (('S', '--', (('VP', '--', (NP, 3)), 4)),)))]
+            for perm in itertools.permutations(range(3)):
+                do([model.MT(k + 1, three[i].toks, three[i].root) for k, i in enumerate(perm)])
+                do([model.MT(k + 1, three[i].toks, three[i].root) for k, i in enumerate(perm + perm[:1])])
+            res.sample({'treebank': [model.mt_str(m.root) for m in three], 'orders': 12, 'modes': len(cfgs)})
         elif chunk['kind'] == 'single':
             mt = None
             for sh, k in sweep.iter_shapes(chunk):
